@@ -756,9 +756,9 @@ func runC15Gob(c *Ctx) *Violation {
 // run inside the same harness and counted separately (probe.t5_*).
 
 var pathSegs = []string{"a", "b", "k", "name", "list", "*", "", "-id", "#text", "x y", "a[0]", "b[1]", "list[2]", "*[0]", "a[-1]", "a[99999999999]", "a[", "a]", "a[x]", "[0]", "a[0", "a[]", "a[0][1]", "é", "a[1]x", "a]1[", "]a[0]", "][", "]0["}
-var subKeys = []string{"a:v", "k:1", ":x", "x:", "!a:v", "!:x", "a:*", "!a:*", "a:1:num", "a:true:bool", "a:v:string", "a:b:c:d", "a", "", ":", "!", "a:x:float", "a:t:boolean", "-id:1", "k|v", "a:v:bogus", "::", "!:", "*:*"}
-var newVals = []string{"a:v", "k:2:num", "a:true:bool", ":x", "x", "a:b:c:d", "", ":", "a:z:bogus", "k:notnum:num", "#text:t"}
-var keyPairs = []string{"a:b", "a", "a:b.c", "list:l.m", "*:x", "a:*", "a:b[0]", ":", "a:", ":b", "a:b:c", "", "a.b:c.d", "list[0]:z", "a[-1]:q", "k:a.b.c.", "name:a", "a:a.b"}
+var subKeys = []string{"a:v", "k:1", ":x", "x:", "!a:v", "!:x", "a:*", "!a:*", "a:1:num", "a:true:bool", "a:v:string", "a:b:c:d", "a", "", ":", "!", "a:x:float", "a:t:boolean", "-id:1", "k|v", "a:v:bogus", "::", "!:", "*:*", "a:maybe:bool", "a:NaN:num", "a:0x:float", "a::num", "!!a:v", "!", "a:v:string:x", "a::", "k:1:numeric", "k:T:boolean", "a:v:char", "a:v:text"}
+var newVals = []string{"a:v", "k:2:num", "a:true:bool", ":x", "x", "a:b:c:d", "", ":", "a:z:bogus", "k:notnum:num", "#text:t", "k:notbool:bool", "k:1:int", "k:1.5:float", "k::num", "::", "a:1:numeric", "*:v", "a[0]:v"}
+var keyPairs = []string{"a:b", "a", "a:b.c", "list:l.m", "*:x", "a:*", "a:b[0]", ":", "a:", ":b", "a:b:c", "", "a.b:c.d", "list[0]:z", "a[-1]:q", "k:a.b.c.", "name:a", "a:a.b", "a:b..c", "a:.b", "a:b.", "b:x.y", "a:x", "*.*:x.y", "a: b", " a:b", "a.b.c:a"}
 
 const pathAlphabet = "ab[]01-.*:x]["
 
@@ -807,8 +807,9 @@ func runC15Args(c *Ctx) *Violation {
 	c.Put("map_from", doc)
 	drawOptions(c)
 	if t.Draw(6) == 5 {
-		mxj.SetFieldSeparator("|")
-		c.Put("field_separator", "|")
+		sep := []string{"|", "::", ".", "*", "a", "["}[t.Draw(6)]
+		mxj.SetFieldSeparator(sep)
+		c.Put("field_separator", sep)
 	}
 	nops := 1 + t.Small(6)
 	c.StepLimit = 200_000 // small Maps: a legitimate call takes a few thousand yields
